@@ -836,7 +836,7 @@ def _composite_keystone_aperture(x, y, center_circle_diameter,
             maxy = max(yy[1], yy[3])
             rangex = maxx - minx
             rangey = maxy - miny
-            samples = tuple(math.ceil(v) for v in (rangex/dx + gap/dx, rangey/dx + gap/dx))  # NOQA - length
+            samples = tuple(math.ceil(v) for v in (rangex/dx + azimuthal_gap/dx, rangey/dx + azimuthal_gap/dx))  # NOQA - length
             cx = minx + rangex/2
             cy = miny + rangey/2
 
